@@ -133,7 +133,8 @@ def linear_and_filters(ctx, n_cases):
         t, st, en, cur = [], [], [], 0
         for L in lens:
             tt = cur + np.arange(L)
-            t += list(tt); st.append(tt[0]); en.append(tt[-1]); cur = tt[-1] + rng.randint(5, 50)
+            # the next epoch starts 5..50 samples later - or on the very next sample (back-to-back trials: still two epochs)
+            t += list(tt); st.append(tt[0]); en.append(tt[-1]); cur = tt[-1] + rng.choice([1, 1, rng.randint(5, 50)])
         t = np.array(t) / fs
         ep = nap.IntervalSet(start=np.array(st) / fs, end=np.array(en) / fs)
         x = npr.randn(len(t)); y = npr.randn(len(t))
@@ -207,6 +208,25 @@ def linear_and_filters(ctx, n_cases):
                 elif not np.allclose(r1, rf, rtol=1e-4, atol=1e-3):
                     ctx.fail("oracle", "%s on %s data differs from the same samples as float64" % (name, dt.__name__),
                              dict(inp, dtype=dt.__name__, x=[int(v) for v in xi]), impl=float(np.max(np.abs(r1 - rf))))
+        # memory layout must not matter: a column-major (Fortran-ordered) tensor with distinct channels, default time support
+        if c % 4 == 0:
+            L0 = len(t)
+            t0 = np.arange(L0) / fs
+            d3 = npr.randn(L0, 2, 3)
+            TF, TC = nap.TsdTensor(t0, np.asfortranarray(d3)), nap.TsdTensor(t0, np.ascontiguousarray(d3))
+            for name, f in (("convolve", lambda z: z.convolve(k)), ("smooth", lambda z: z.smooth(3 / fs, size_factor=4)),
+                            ("sinc lowpass", lambda z: nap.apply_lowpass_filter(z, lo, fs, mode="sinc")),
+                            ("butter lowpass", lambda z: nap.apply_lowpass_filter(z, lo, fs, mode="butter"))):
+                ctx.count("fortran-order:%s" % name)
+                rF, rC = f(TF).values, f(TC).values
+                if rF.shape != (L0, 2, 3) or not close(rF, rC):
+                    ctx.fail("oracle", "%s of a Fortran-ordered TsdTensor differs from the same data in C order" % name, dict(inp, shape=[L0, 2, 3]),
+                             impl=float(np.max(np.abs(rF - rC))) if rF.shape == rC.shape else list(rF.shape))
+            ref = np.stack([np.convolve(d3[:, i, j], k, mode="full") for i in range(2) for j in range(3)], 1)
+            full_ = TF.convolve(k).values.reshape(L0, 6)
+            cands = [ref[c0:c0 + L0] for c0 in (len(k) // 2, (len(k) - 1) // 2, max(len(k) // 2 - 1, 0))]
+            if not any(close(full_, cc) for cc in cands):
+                ctx.fail("oracle", "convolve of a Fortran-ordered TsdTensor is not the per-channel NumPy convolution", dict(inp, shape=[L0, 2, 3]))
         # smooth == convolve with the gaussian window the code builds
         std = rng.choice([2, 3, 5]) / fs
         sm = X.smooth(std, size_factor=6)
@@ -224,5 +244,5 @@ def run(ctx):
 
 
 def replay(ctx, rec):
-    print("re-run `./check C18 quick` with VERIF_SEED=%s; failing input: %s" % (rec.get("seed"), rec.get("input")))
-    return False
+    print("re-executing the recorded run of `./check C18 quick` with VERIF_SEED=%s; failing input: %s" % (rec.get("seed"), rec.get("input")))
+    return None
